@@ -1,7 +1,7 @@
 """Module to handle the functionality of conditional effects."""
 from typing import Dict, Union, Set
 
-from .pddl_precondition import CompoundPrecondition
+from .pddl_precondition import CompoundPrecondition, fresh_variable_name
 from .pddl_type import PDDLType
 from .pddl_predicate import Predicate, GroundedPredicate
 from .numerical_expression import NumericalExpressionTree
@@ -72,7 +72,8 @@ class UniversalEffect:
         return combined_universal_effect
 
     def change_signature(self, old_to_new_param_names: Dict[str, str]) -> None:
-        """Changes the parameter names in the quantified effects; the quantified parameter is bound here and is kept.
+        """Changes the parameter names in the quantified effects; the quantified parameter is bound here and is kept,
+        unless one of the new names equals it - then the quantified parameter is renamed to a fresh name first.
 
         :param old_to_new_param_names: the mapping of old parameter names to new parameter names.
         """
@@ -81,5 +82,13 @@ class UniversalEffect:
             for old_name, new_name in old_to_new_param_names.items()
             if old_name != self.quantified_parameter
         }
+        if self.quantified_parameter in free_names_mapping.values():
+            # a renamed name would be captured by this quantifier: its own variable moves out of the way first.
+            fresh_name = fresh_variable_name(self.quantified_parameter, str(self), free_names_mapping)
+            for conditional_effect in self.conditional_effects:
+                conditional_effect.change_signature({self.quantified_parameter: fresh_name})
+
+            self.quantified_parameter = fresh_name
+
         for conditional_effect in self.conditional_effects:
             conditional_effect.change_signature(free_names_mapping)
